@@ -866,12 +866,93 @@ def compare_rt(c, m, stats):
     return diffs
 
 
+# ------------------------------------------------------------------ RSA-PSS parameters (drv c16pss)
+# MODEL-FREE ORACLE, from RFC 8017 9.1.2 / RFC 4055 3.1: a verifier takes sLen from the RSASSA-PSS-params and rejects unless the
+# recovered DB is (emLen - hLen - sLen - 2) zero octets, 0x01, salt.  So the salt length found in the signature itself
+# (sig^e mod n, MGF1 unmasking, position of the 0x01 separator -- own arithmetic here, no relic / crypto/rsa code) must equal the
+# saltLength relic wrote into the parameters.  crypto/rsa.VerifyPSS at the declared length and `openssl cms -verify` (driver) are
+# two more independent verifiers that must accept.
+def pss_mgf1(hname, seed, n):
+    out, i = b"", 0
+    while len(out) < n:
+        out += hashlib.new(hname, seed + i.to_bytes(4, "big")).digest()
+        i += 1
+    return out[:n]
+
+
+def pss_used_salt(c):
+    """salt length found in the signature (None if EM is not a PSS encoding)"""
+    n, sig = int(c["n"], 16), int(c["sig"], 16)
+    em_bits = n.bit_length() - 1
+    em_len = (em_bits + 7) // 8
+    em = pow(sig, c["e"], n).to_bytes((n.bit_length() + 7) // 8, "big")
+    em = em[len(em) - em_len:]
+    hl = hashlib.new(c["hash"]).digest_size
+    if em_len < hl + 2 or em[-1] != 0xbc:
+        return None
+    h = em[em_len - hl - 1:-1]
+    db = bytearray(a ^ b for a, b in zip(em[:em_len - hl - 1], pss_mgf1(c["hash"], h, em_len - hl - 1)))
+    db[0] &= 0xff >> (8 * em_len - em_bits)
+    i = 0
+    while i < len(db) and db[i] == 0:
+        i += 1
+    if i == len(db) or db[i] != 1:
+        return None
+    return len(db) - i - 1
+
+
+def oracle_pss(ctx, c, stats):
+    if c.get("panic"):
+        ctx.violation("C16:panic:builder", "builder panicked with PSS options: %s [%s]" % (c["panic"], c["label"]), {"cases": [c]})
+        return None
+    if c["sign_err"]:
+        stats["pss_refused"] += 1
+        return None
+    used = pss_used_salt(c)
+    stats["pss_decided"] += 1
+    c["used_salt_found"] = used
+    odd = ":modbits-1-mod-8" if c["modbits"] % 8 == 1 and c["opt"] == 0 else ""
+    if used is None or c["declared"] != used:
+        ctx.violation("C16:pss:declared-salt-ne-used" + odd,
+                      "RSASSA-PSS-params of the emitted SignerInfo declare saltLength=%s but the signature carries a salt of %s octets "
+                      "(RFC 8017 9.1.2 step 10: a verifier rejects); crypto/rsa.VerifyPSS at the declared length: %s; openssl cms -verify: %s "
+                      "[%d-bit RSA key %s, %s, PSSOptions.SaltLength=%d%s]"
+                      % (c["declared"], used, c["go_verify_declared"], c["openssl"][:60], c["modbits"], c["key"], c["hash"], c["opt"], ", signed attributes" if c["attrs"] else ""),
+                      {"cases": [c]})
+    elif c["go_verify_declared"] != "ok" or c["openssl"] not in ("ok", "skipped"):
+        ctx.violation("C16:pss:external-verify" + odd, "PSS signature built by relic is rejected by an independent verifier at the declared parameters: VerifyPSS %s, openssl %s [%s]"
+                      % (c["go_verify_declared"], c["openssl"][:120], c["label"]), {"cases": [c]})
+    return used
+
+
+def compare_pss(c, m):
+    d = []
+    if not m[5]:
+        d.append(("pss", "the generated call-site facts (Sign passes sb.signerOpts to PkixAlgorithms and to privateKey.Sign; PkixAlgorithms passes them on) no longer hold"))
+    em_len = (c["modbits"] - 1 + 7) // 8
+    if c["sign_err"]:
+        # the model covers SignPSS's resolution; the later EMSA-PSS-ENCODE length check (emLen < hLen + sLen + 2) is the specification's
+        if m[0] == 1 and not (m[2] > em_len - c["hlen"] - 2):
+            d.append(("pss", "relic/crypto refused (%s) but the model signs with salt %d" % (c["sign_err"], m[2])))
+        return d
+    if m[0] != 1:
+        d.append(("pss", "model: signer refuses; implementation signed"))
+        return d
+    if m[1] != c["declared"]:
+        d.append(("pss", "declared saltLength: relic %d, model %d" % (c["declared"], m[1])))
+    if c.get("used_salt_found") is not None and m[2] != c["used_salt_found"]:
+        d.append(("pss", "salt length used: found in signature %d, model %d" % (c["used_salt_found"], m[2])))
+    if m[2] != m[3]:
+        d.append(("pss", "model's used salt %d differs from the specification's %d" % (m[2], m[3])))
+    return d
+
+
 def new_stats():
     return dict.fromkeys(["rejected", "accepted_not_strict_der", "oracle_decided", "attr_preimages", "si_not_walkable", "external_ok",
                           "tokens_embedded", "outside_model_hightag", "crl_inner_rejected", "both_accept", "spec_defined",
                           "econtent_not_der", "content_reported_absent_though_present", "token_reencoded_differs",
                           "sv_refused_at_parse", "sv_not_walkable", "sv_decided", "sv_valid", "sv_invalid", "sv_lax_duplicate_message_digest_accepted",
-                          "sv_generator_expectation_differs", "sv_model_compared", "sx_decided", "sx_undecided"], 0)
+                          "sv_generator_expectation_differs", "sv_model_compared", "sx_decided", "sx_undecided", "pss_decided", "pss_refused", "pss_model_compared"], 0)
 
 
 def compare_builder(c, m, witnesses, stats):
@@ -927,7 +1008,7 @@ def compare_scalar(c, m):
 def run(ctx, replay=None):
     st = ctx.prepare(["C16_gen"], ["C16"], "C16.Run")
     model_ok = st["model_ok"]
-    fp = ["lib/pkcs7", "lib/pkcs9"]
+    fp = ["lib/pkcs7", "lib/pkcs9", "lib/x509tools"]
     if not st["harness_ok"]:
         return ctx.finish("proof", ctx.proof_coverage([], fp), [])
     if replay:
@@ -954,11 +1035,19 @@ def run(ctx, replay=None):
             ctx.violation("C16:driver-crash", "driver (c16sv) failed: " + err3[-400:], {"stderr": err3[-2000:]}, False)
             out3 = ""
         cases += [json.loads(l) for l in out3.splitlines() if l.strip()]
+        rc, out4, err4 = ctx.drv(["c16pss"], timeout=300)
+        if rc != 0:
+            ctx.violation("C16:driver-crash", "driver (c16pss) failed: " + err4[-400:], {"stderr": err4[-2000:]}, False)
+            out4 = ""
+        cases += [json.loads(l) for l in out4.splitlines() if l.strip()]
     rts = [c for c in cases if c.get("t") == "rt"]
     svs = [c for c in cases if c.get("t") == "sv"]
     sxs = [c for c in cases if c.get("t") == "sx"]
     bs = [c for c in cases if c.get("t") == "b"]
+    pss = [c for c in cases if c.get("t") == "pss"]
     stats = new_stats()
+    for c in pss:
+        oracle_pss(ctx, c, stats)
     # ---- 1. model-free oracle
     for c in rts:
         oracle_roundtrip(ctx, c, stats)
@@ -1034,6 +1123,12 @@ def run(ctx, replay=None):
                 if d:
                     mism.append((c, d))
             evaluated += len(valx)
+            for c, m in zip(pss, ctx.run_model([[7, [c["opt"], c["modbits"], c["hlen"]]] for c in pss])):
+                stats["pss_model_compared"] += 1
+                d = compare_pss(c, m)
+                if d:
+                    mism.append((c, d))
+            evaluated += len(pss)
         except RuntimeError as e:
             ctx.violation("C16:model-eval", str(e)[-300:], {"output": str(e)}, False)
     if mism and not found:
@@ -1052,11 +1147,13 @@ def run(ctx, replay=None):
                               "encoding/asn1 is modelled (tag/length reader, INTEGER, BIT STRING, SET OF sorting, RawContent/RawValue emission, optional/explicit handling); OID arc decoding and CRL tbsCertList fields are assumed, identifier octets with tag number >= 31 are outside the model",
                               "verification path: the models of SignerInfo.Verify, AuthenticatedAttributesBytes, AttributeList.Bytes, pkcs9.Verify, finishVerify, MessageImprint.Verify are the INTERPRETATION (C16/VModel.v) of the statement-level translation of the Go bodies (srcgen prog_*); digest, signature check, certificate parsing, TSTInfo decoding are parameters of the theorems; GetOne / FindCertificate loops are hand-modelled with generated conditions; SignedData.Verify's loop over signer infos and TimestampAndMarshal are exercised by the harness only"], fp)
     cov.update({
-        "evaluations": evaluated, "distinct_nontrivial": stats["oracle_decided"] + len([c for c in bs if c["in_domain"]]) + stats["sv_decided"] + stats["sx_decided"],
+        "evaluations": evaluated, "distinct_nontrivial": stats["oracle_decided"] + len([c for c in bs if c["in_domain"]]) + stats["sv_decided"] + stats["sx_decided"] + stats["pss_decided"],
         "rule": "OpenSSL-made SignedData (RSA/PSS/ECDSA, sha1..sha512, with/without attributes, 1-3 signers, chains, CRLs, detached, CAdES, receipt request), RFC 3161 tokens from two TSA configurations, relic-built and relic-stamped structures, BER and v3-signer samples that must be refused, structured mutants at every element boundary, an exhaustively mutated tiny SignedData, builder matrix; non-trivial = accepted by relic AND strict DER, so that the RFC 5652 region oracle decides it; "
                 "signed-bytes matrix (c16sv): RSA/ECDSA x sha256/sha1 x 15 layouts of the signed attributes (DER order, insertion order, reversed, duplicates, trailing junk, single, empty, "
                 "unsorted values, non-minimal and indefinite lengths, none) x up to 10 encodings the signature is over (as emitted, sorted DER, re-encoded, reversed, [0]-tagged, SEQUENCE-tagged, "
-                "content digest, with/without DigestInfo) x right/wrong message-digest, each through SignedData.Verify, SignerInfo.Verify (digests checked/skipped), pkcs9.Verify and TimestampAndMarshal",
+                "content digest, with/without DigestInfo) x right/wrong message-digest, each through SignedData.Verify, SignerInfo.Verify (digests checked/skipped), pkcs9.Verify and TimestampAndMarshal; "
+                "RSA-PSS matrix (c16pss): pkcs7.NewBuilder(..).Sign() with rsa.PSSOptions auto / equals-hash / explicit (1, 20, 32, max, max+1, -2) x sha1/256/384/512 x RSA 2048 (testkeys), generated 1024- and 1032-bit keys, "
+                "with and without signed attributes: declared saltLength vs the salt length recovered from the signature, VerifyPSS and openssl cms -verify at the declared length",
         "samples": [dict((k, c[k]) for k in ("src", "mut", "err", "content_st")) for c in rts[:2]] + [dict((k, c[k]) for k in ("label", "key", "hash", "mode", "stamp")) for c in bs[:2]]
                    + [dict((k, c[k]) for k in ("key", "hash", "layout", "signed", "md", "expect", "si_verify", "tam")) for c in svs[:2]],
         "exhaustive": False, "input_distribution": kinds, "oracle_stats": stats, "model_mismatches": len(mism),
